@@ -291,6 +291,47 @@ void h_prefix_decode(void)
   if (want_k <= 3) V_CANARY("short code decoded");
 }
 
+
+/* C08 / O5.6  Zero-run accumulation `run += RUN(s) << shift++` (both copies, extracted verbatim): from every state satisfying the invariant
+   J(run, shift): run >= 2^shift - 1  and  shift <= 21   (initially run in {0,1}, shift = 0; the guard run <= 900000 < 2^20 then keeps
+   shift <= 20 whenever the statement executes) -- the shift is defined, nothing overflows, J is preserved, and the value added is the
+   RUNA/RUNB digit (1 or 2) times 2^shift as the format prescribes. */
+#ifndef RA_SLOW
+#define RA_SLOW 0
+#endif
+void h_run_accumulate(void)
+{
+  V_IN(unsigned, run0);
+  V_IN(unsigned, shift0);
+  V_IN(unsigned, s0);
+  V_ASSUME(shift0 <= 21 && (uint64_t)run0 + 1 >= ((uint64_t)1 << shift0) && run0 <= 4 * MAX_BLOCK_SIZE);
+  V_ASSUME(s0 <= 258 && s0 != 256);       /* symbols the tables can yield: 0 = end of block, 1..255 MTF values, 257 RUNA, 258 RUNB (make_tree perm[]) */
+  unsigned s = s0, run = run0, shift = shift0; int continued = 1;
+  RS.run = run0; RS.shift = shift0;
+  struct retriever_internal_state *rs = &RS;
+  do {
+#if RA_SLOW
+#include "src/extract/run_accumulate_slow.inc"
+#else
+#include "src/extract/run_accumulate_fast.inc"
+#endif
+    continued = 0;
+  } while (0);
+#if RA_SLOW
+  run = RS.run; shift = RS.shift;
+#endif
+  int is_run = (s0 == RUN_A || s0 == RUN_B);
+  V_ASSERT(continued == (is_run && run0 <= MAX_BLOCK_SIZE), "a run symbol extends the pending run exactly while the run has not outgrown the largest block");
+  if (continued) {
+    V_ASSERT(shift == shift0 + 1 && run == run0 + ((s0 == RUN_A ? 1u : 2u) << shift0), "RUNA/RUNB add 1 or 2 times 2^position (bijective base-2 numeration of the format)");
+    V_ASSERT(shift <= 21 && (uint64_t)run + 1 >= ((uint64_t)1 << shift), "the invariant run >= 2^shift - 1, shift <= 21 is preserved (so the shift amount never reaches the width)");
+    V_CANARY("run extended");
+  } else {
+    V_ASSERT(run == run0 && shift == shift0, "otherwise run and shift are untouched");
+    V_CANARY("not a run symbol or run too long");
+  }
+}
+
 #ifdef VERIF_REPLAY
 int main(void) { HARNESS(); puts("REPLAY-PASS"); return 0; }
 #endif
